@@ -162,12 +162,31 @@ def gen_history(seed, tier="quick", zoo_filter=None, faults_on=True):
 
 
 def draw_point(model, points, rng, nprng):
-    """A new admissible point. Three modes, because history defects hide in different neighbourhoods:
+    """A new admissible point. Four modes, because history defects hide in different neighbourhoods:
     independent (a random subset of inputs redrawn, others nominal); sibling (an existing pool point
     with one or two inputs redrawn - exposes memoisation keyed on too few inputs); nearby (an existing
     pool point perturbed by 1e-7..1e-3 relative, as line searches and finite differences do - exposes
     'close enough' cache validation)."""
     r = rng.random()
+    with_special = [i for i in model.inputs if i.special]
+    if points and with_special and r < 0.12:
+        # special-value toggle: a pool point with ONE input moved onto (or off) one of its exact special values
+        # (zero thrust, zero body rates, taper exactly 1, empty tanks ...) and nothing else changed - the shape of
+        # an engine-out case derived from a powered one. Exact-value branches (early exits, skipped work) are only
+        # entered at such values, and only matter when the neighbour in the history was not on them.
+        base = rng.choice(points)
+        pt = {k: np.array(v, dtype=float, copy=True) for k, v in base.items()}
+        inp = rng.choice(with_special)
+        on_special = any(np.all(pt[inp.name] == float(sv)) for sv in inp.special)
+        if on_special:
+            for _ in range(8):
+                v = inp.draw(nprng, rng)
+                if not any(np.all(v == float(sv)) for sv in inp.special):
+                    break
+            pt[inp.name] = v
+        else:
+            pt[inp.name] = np.full(inp.nom.shape, float(rng.choice(inp.special)))
+        return pt
     if points and r < 0.3:
         base = rng.choice(points)
         pt = {k: np.array(v, dtype=float, copy=True) for k, v in base.items()}
